@@ -195,7 +195,7 @@ func (vc *VC) evalVal(e Expr, env *Env, st, old *State) Val {
 		var binders []string
 		var guards []string
 		for _, qv := range x.Vars {
-			t := vc.prog.resolveType(qv.Type, env.pkg)
+			t := vc.quantType(qv.Type, env.pkg)
 			srt := sortOfType(t)
 			name := "|q:" + qv.Name + "|"
 			v := Val{K: kindOf(t), T: t, S: name}
@@ -261,6 +261,9 @@ func (vc *VC) evalVal(e Expr, env *Env, st, old *State) Val {
 
 func (vc *VC) evalIdent(name string, env *Env, st *State) Val {
 	if v, ok := env.lookup(name, st); ok {
+		return v
+	}
+	if v, ok := vc.ghostVal(name, st); ok {
 		return v
 	}
 	// package-level objects
@@ -398,6 +401,12 @@ func (vc *VC) indexVal(base, idx Val, st *State) Val {
 	case KStr:
 		return Val{K: KInt, T: types.Typ[types.Uint8], S: sx("s_at", base.S, idx.S)}
 	case KArr:
+		if base.GT != nil {
+			if base.GT.ElemG != nil {
+				return Val{K: KArr, S: sx("select", base.S, idx.S), Sort: base.GT.ElemG.sort(), GT: base.GT.ElemG}
+			}
+			return Val{K: kindOf(base.GT.ElemT), T: base.GT.ElemT, S: sx("select", base.S, idx.S)}
+		}
 		// ghost array
 		inner := strings.TrimSuffix(strings.TrimPrefix(base.Sort, "(Array "), ")")
 		parts := strings.SplitN(inner, " ", 2)
@@ -562,7 +571,7 @@ func (vc *VC) evalCall(x *ECall, env *Env, st, old *State) Val {
 		return Val{K: KInt, T: tInt, S: sx("scap", a.S)}
 	case "fresh":
 		a := arg(0)
-		return Val{K: KBool, T: tBool, S: sx(">=", sx("rootOf", vc.addrOf(a)), "|alloc@0|")}
+		return Val{K: KBool, T: tBool, S: sx(">=", sx("rootOf", vc.addrOf(a)), old.alloc)}
 	case "live": // refers to memory allocated so far in this state
 		a := arg(0)
 		return Val{K: KBool, T: tBool, S: sx("<", sx("rootOf", vc.addrOf(a)), st.alloc)}
@@ -616,7 +625,7 @@ func (vc *VC) evalCall(x *ECall, env *Env, st, old *State) Val {
 		for i := range x.Args {
 			args = append(args, arg(i))
 		}
-		return vc.callSpec(sf, args, st)
+		return vc.callSpec(sf, args, st, old)
 	}
 	// type conversion to a named integer type of the package
 	if env.pkg != nil {
@@ -686,4 +695,13 @@ func (vc *VC) where() string {
 		return vc.fn.String()
 	}
 	return "lemma"
+}
+
+func (vc *VC) quantType(name string, pkg *types.Package) (t types.Type) {
+	defer func() {
+		if r := recover(); r != nil {
+			t = vc.localType(name)
+		}
+	}()
+	return vc.prog.resolveType(name, pkg)
 }
